@@ -29,17 +29,63 @@ def run(res, tier):
     n = 0
     notes = []
     seen_setup_fail = False
+    def ret_disc(p, prefix):
+        """Discriminant term of the returned value at `prefix`, or None if unconstrained / unknown."""
+        d = p.ret.get(prefix + ("disc",))
+        if d is not None:
+            return d, None
+        leaf = p.ret.get(prefix)
+        if isinstance(leaf, mir.Opq):
+            return mir.peek(E, p.mem, (("o", leaf.id), "disc")), leaf
+        return None, leaf
+
+    READY = (("v", "Ready"), ("f", 0))
+    ITEM = READY + (("v", "Some"), ("f", 0))
     for i, p in enumerate(paths):
         if p.kind != "return":
             continue
         d = p.ret.get(("disc",))
-        if d is None or not must(E, p, d == 1):
-            continue                      # returns Ready(..)
+        if d is None:
+            continue
+        setup = [e for e in p.events if e.kind == "call" and re.search(r"RtrStream::new$", e.name)]
+        if must(E, p, d == 0):
+            # returns Ready(..): a failed connection setup must not surface as a stream error or end the stream
+            # (rpki's Server::run does `sock?` on every item and ends on the first Err; None ends `while let`)
+            if not setup:
+                continue
+            n += 1
+            sleaf = setup[-1].dest.get(()) if setup[-1].dest else None
+            sd = disc_of(E, p, setup[-1])
+            od, _ = ret_disc(p, READY)
+            rd, rleaf = ret_disc(p, ITEM)
+            fail = z3.BoolVal(True) if sd is None else sd == 1
+            if sd is not None and not E.feasible(p.cond, sd == 1):
+                continue
+            seen_setup_fail = True
+            bad = None
+            if od is not None and E.feasible(p.cond, z3.And(fail, od == 0)):
+                bad = ("stream-ends", "poll_next returns Ready(None) after a failed connection setup: the listener stream ends")
+            elif rleaf is not None and rleaf is sleaf:
+                bad = ("setup-error-yielded", "poll_next hands the failed RtrStream::new result on as a stream item "
+                       "(Ready(Some(Err))): rpki's Server::run applies `?` to every item and stops accepting")
+            elif rd is not None and E.feasible(p.cond, z3.And(fail, rd == 1)):
+                bad = ("setup-error-yielded", "poll_next returns Ready(Some(Err(..))) after a failed connection setup: "
+                       "rpki's Server::run applies `?` to every item and stops accepting")
+            res.samples.append({"returns": "Ready", "setup_may_fail": True, "bad": bad[0] if bad else None})
+            if bad:
+                ok, note = native_replay(res)
+                fn = mprop.write_cex(res, "%s_%d" % (bad[0].replace("-", "_"), i), p, E, bad[1] + ". " + note)
+                if ok is False:
+                    res.inconclusive.append("MIR path '%s' did not reproduce natively" % bad[0])
+                else:
+                    res.violation("mir:%s" % bad[0], bad[1] + ("; reproduced natively" if ok else ""), fn)
+            continue
+        if not must(E, p, d == 1):
+            continue
         n += 1
         polls = [e for e in p.events if e.kind == "call" and re.search(r"(Future::poll|poll_accept|poll_next|poll_read|poll_write)$", e.name)]
         wakes = [e for e in p.events if e.kind == "call" and re.search(r"Waker::wake(_by_ref)?$|wake_by_ref$", e.name)]
         registered = bool(wakes) or (polls and poll_state(E, p, polls[-1]) == "pending")
-        setup = [e for e in p.events if e.kind == "call" and re.search(r"RtrStream::new$", e.name)]
         setup_failed = bool(setup) and disc_of(E, p, setup[-1]) is not None and must(E, p, disc_of(E, p, setup[-1]) == 1)
         new_timer = p.has(r"tokio::time::sleep$")
         res.samples.append({"returns": "Pending", "polls": [(e.name.split("::")[-1], poll_state(E, p, e)) for e in polls],
@@ -62,7 +108,7 @@ def run(res, tier):
             notes.append("arm outside C19's statement: Pending without a registered wake-up after %s"
                          % ("an accept error (fresh, never-polled back-off timer)" if new_timer else "other"))
     if not seen_setup_fail:
-        res.inconclusive.append("vacuity: no path on which RtrStream::new fails and Pending is returned")
+        res.inconclusive.append("vacuity: no path on which RtrStream::new can fail")
     res.notes += sorted(set(notes))
     res.distinct += n
     res.extra["paths"] = len(paths)
@@ -74,8 +120,11 @@ def run(res, tier):
         "this is not polled again by the rpki-rs RTR server loop",
         "tokio's poll_accept / Sleep::poll register the waker exactly when they return Pending",
     ]
-    res.rule = ("one case = one feasible path of poll_next that returns Pending; assertion on the paths where the "
-                "per-connection setup failed; evaluations = z3 queries")
+    res.assumptions.append("rpki-rs rtr::Server::run ends on the first Err item (`sock?`) or None of the listener stream "
+                           "(read off the pinned rpki-rs source)")
+    res.rule = ("one case = one feasible path of poll_next that returns Pending, or that returns Ready after a "
+                "connection setup; assertions on the paths where the per-connection setup failed: a wake-up is "
+                "arranged, and no Err item / end of stream is produced; evaluations = z3 queries")
     mprop.finish_engine(res, E)
 
 
